@@ -45,6 +45,9 @@ def main(argv=None):
         mod.run(ctx, res)
         if tier == "thorough" and hasattr(mod, "thorough"):
             mod.thorough(ctx, res)
+        if tier == "thorough" and not os.environ.get("RTCP_NO_CONTROLS"):
+            from . import controls
+            controls.run(ctx, res, prop)
     except facts.FactsError as ex:
         res.violations.append(core.Violation(prop, "extraction", "cargo +nightly check", "facts extracted from /repo's working tree",
                                              detail=str(ex)[-1500:]))
